@@ -591,15 +591,22 @@ def toRe (ic : Bool) : Ast → Option Re
     | some x => some (.rep x mn.toNat (if mx < 0 then none else some mx.toNat))
     | none => none
 
+/-- code points for which the complement construction of `litRe` is exact: below the surrogate gap (`Char.ofNat` of a
+surrogate is not that code) -/
+def Lit.lowCodes (l : Lit) : Bool :=
+  decide (l.lo < 0xD800) && (match l.hi with | none => true | some h => decide (h + 1 < 0xD800))
+
 /-- the part of the trees for which `toRe` is PROVED to keep the meaning (`ast_denotation_partial`): no back
-reference, no negated-class list, a class leaf only without REG_ICASE and only over the full code range (which is
-how `tre_parse_bracket_items` makes them).  `[^[:alpha:]]` and `[[:alpha:]]` under IGNORECASE are handled by `toRe`
-too but tied by the correspondence run only. -/
+reference; a class leaf covers the full code range (which is how `tre_parse_bracket_items` makes them; with or
+without REG_ICASE); a leaf with a negated-class list (`[^[:alpha:]x]`) has no class of its own and its code range lies
+below the surrogate gap U+D800 (so that the complement ranges of `litRe` are exact). -/
 def Ast.plain (ic : Bool) : Ast → Bool
   | .leaf .empty _ _ => true
   | .leaf (.asrt c) _ _ => (asrtRe c).isSome
   | .leaf (.backref _ _) _ _ => false
-  | .leaf (.lit l) _ _ => l.neg.isEmpty && (l.cls.isNone || (!ic && l.lo == 0 && l.hi.isNone))
+  | .leaf (.lit l) _ _ =>
+    if l.neg.isEmpty then l.cls.isNone || (l.lo == 0 && l.hi.isNone)
+    else l.cls.isNone && l.lowCodes
   | .cat a b _ _ => a.plain ic && b.plain ic
   | .union a b _ _ => a.plain ic && b.plain ic
   | .iter a _ _ _ _ _ => a.plain ic
